@@ -8,6 +8,10 @@ use core::{
 
 /// Poll a pinned future once with a no-op waker.
 pub fn poll_once<F: Future + ?Sized>(fut: Pin<&mut F>) -> Poll<F::Output> {
+    // The transport poll budget is per harness-level poll (see `sock::READ_POLL_LIMIT`): resetting
+    // it here, unconditionally, keeps the counter a constant for symbolic execution even after
+    // paths with different histories have been merged.
+    crate::sock::begin_poll();
     let mut cx = Context::from_waker(Waker::noop());
     fut.poll(&mut cx)
 }
